@@ -15,8 +15,18 @@ Arguments sort_by : simpl never.
 Definition vok (s : st) (v : inp) : Prop :=
   match v with
   | K _ => True
-  | O u ch => exists U, get_unit s u = Some U /\ (multi U = false -> ch = 0) /\ (isugen U = false -> iswf U = true)
+  | O u ch => exists U, get_unit s u = Some U /\ (multi U = false -> ch = 0) /\ (isugen U = false -> iswf U = true) /\
+                       ch < nouts U
   end.
+
+(* the class names the model can write (finitely many literals) and the part of the control array a Control
+   unit covers *)
+Definition cls_lit (c : string) : bool :=
+  arith_cls c || existsb (String.eqb c) (["Control"; "Out"; "DC"] ++ map (fun p => c_cls (snd p)) catalogue).
+Definition ctl_bound (U : unit) (controls : list Q) : Prop :=
+  (0 <= special U)%Z /\ (special U + Z.of_nat (nouts U) <= Z.of_nat (List.length controls))%Z.
+Definition loc_ok (U : unit) (controls : list Q) : Prop :=
+  cls_lit (cls U) = true /\ (String.eqb (cls U) "Control" = true -> ctl_bound U controls).
 
 (* the WidthFirstUGen objects among the first n objects, in creation order *)
 Definition iswf_at (s : st) (x : nat) : bool := match get_unit s x with Some X => iswf X | None => false end.
@@ -31,7 +41,8 @@ Record Built (s : st) : Prop := mkBuilt {
           exists w, wfa U = Some w /\ forall x, In x w -> x < u /\ exists X, get_unit s x = Some X /\ iswf X = true;
   B_wfugens : forall x, In x (wfugens s) -> exists X, get_unit s x = Some X /\ iswf X = true;
   B_wfx : forall u U, get_unit s u = Some U -> wfa U = Some (wf_upto s u);
-  B_wfux : wfugens s = wf_upto s (List.length (units s))
+  B_wfux : wfugens s = wf_upto s (List.length (units s));
+  B_loc : forall u U, get_unit s u = Some U -> loc_ok U (controls s)
 }.
 
 Definition ext (s s' : st) : Prop := exists extra, units s' = units s ++ extra.
@@ -48,7 +59,7 @@ Proof. intros s s' [q|u ch] E H; simpl in *; auto. destruct H as (U & G & M). ex
 Lemma Built_covered : forall s c C v ch V, Built s -> get_unit s c = Some C -> In (O v ch) (ins C) -> get_unit s v = Some V ->
   exists w wv, wfa C = Some w /\ wfa V = Some wv /\ (isugen V = false -> In v w) /\ incl wv w.
 Proof.
-  intros s c C v ch V B GC Hin GV. destruct (B_ins s B c C v ch GC Hin) as [Lt (V0 & GV0 & _ & Hw)].
+  intros s c C v ch V B GC Hin GV. destruct (B_ins s B c C v ch GC Hin) as [Lt (V0 & GV0 & _ & Hw & _)].
   rewrite GV in GV0. injection GV0 as <-.
   exists (wf_upto s c), (wf_upto s v). split; [apply (B_wfx s B); auto|]. split; [apply (B_wfx s B); auto|]. split.
   - intro Iu. unfold wf_upto. apply filter_In. split; [apply in_seq; lia|]. unfold iswf_at. rewrite GV. auto.
@@ -64,6 +75,7 @@ Proof.
   - intros u U H. destruct u; discriminate.
   - intros x [].
   - intros u U H. destruct u; discriminate.
+  - intros u U H. destruct u; discriminate.
 Qed.
 
 (* ---- one object creation (SynthDef._add_ugen) *)
@@ -71,10 +83,11 @@ Lemma create_built : forall s mk wfirst s' u, Built s -> create s mk wfirst = (s
   (forall w i, let U := mk (List.length (units s)) w i in
      uid U = List.length (units s) /\ sidx U = i /\ wfa U = w /\ unit_ok U = true /\ iswf U = wfirst /\
      forall v ch, In (O v ch) (ins U) -> vok s (O v ch)) ->
+  (forall w i, loc_ok (mk (List.length (units s)) w i) (controls s)) ->
   Built s' /\ u = List.length (units s) /\ ext s s' /\
   exists U, units s' = units s ++ [U] /\ U = mk (List.length (units s)) (Some (wfugens s)) (Z.of_nat (List.length (units s))).
 Proof.
-  intros s mk wfirst s' u B Hc Hmk. destruct B.
+  intros s mk wfirst s' u B Hc Hmk Hloc. destruct B.
   set (n := List.length (units s)) in *.
   assert (Hclen : List.length (children s) = n) by (rewrite B_children0, map_length, seq_length; auto).
   unfold create in Hc. rewrite B_rw0, Hclen in Hc. fold n in Hc. injection Hc as <- <-.
@@ -126,6 +139,7 @@ Proof.
     { rewrite B_wfux0. unfold wf_upto. fold n. apply filter_ext_in. intros y Hy. apply in_seq in Hy. unfold iswf_at, get_unit. cbn [units].
       rewrite nth_error_app1 by (fold n; lia). reflexivity. }
     rewrite Hold. destruct wfirst; [reflexivity | rewrite app_nil_r; reflexivity].
+  - intros x X G. cbn [controls]. destruct (Hget x X G) as [[L G0]|[-> ->]]; [apply (B_loc0 x X); auto | apply Hloc].
 Qed.
 
 (* ---- the operator tables: every canonical name looks itself up *)
@@ -162,10 +176,10 @@ Proof. intros; split; [|split]; auto. apply ext_refl. Qed.
 Lemma CtorOK_trans : forall s s1 s2 v, ext s s1 -> CtorOK s1 s2 v -> CtorOK s s2 v.
 Proof. intros s s1 s2 v E (A & B & C). split; [|split]; auto. eapply ext_trans; eauto. Qed.
 
-Lemma vok_new : forall s s' U, units s' = units s ++ [U] -> multi U = false -> isugen U = true ->
+Lemma vok_new : forall s s' U, units s' = units s ++ [U] -> multi U = false -> isugen U = true -> nouts U = 1 ->
   vok s' (O (List.length (units s)) 0).
 Proof.
-  intros s s' U H M Iu. simpl. exists U. split; [|split; [auto | rewrite Iu; discriminate]].
+  intros s s' U H M Iu Hn. simpl. exists U. split; [|split; [auto | split; [rewrite Iu; discriminate | rewrite Hn; lia]]].
   unfold get_unit. rewrite H, nth_error_app2, Nat.sub_diag; auto.
 Qed.
 
@@ -179,6 +193,7 @@ Proof.
     split; [reflexivity|]. split; [reflexivity|]. split; [reflexivity|]. split; [|split; [reflexivity|]].
     - unfold unit_ok, tracked; simpl. destruct a; [discriminate|reflexivity].
     - intros v0 ch [E|[]]. rewrite <- E. exact Va. }
+  { intros w k. split; [vm_compute; reflexivity | cbn [cls]; intro E; vm_compute in E; discriminate E]. }
   split; auto. split; auto. eapply vok_new; eauto; rewrite EU; reflexivity.
 Qed.
 
@@ -208,6 +223,7 @@ Proof.
     split; [reflexivity|]. split; [reflexivity|]. split; [reflexivity|]. split; [|split; [reflexivity|]].
     - unfold unit_ok, tracked. cbn [pure isugen multi iswf ukind ins opname implb andb negb]. exact Hok.
     - intros v0 ch [E|[E|[]]]; rewrite <- E; auto. }
+  { intros w k. split; [vm_compute; reflexivity | cbn [cls]; intro E; vm_compute in E; discriminate E]. }
   split; auto. split; auto. eapply vok_new; eauto; rewrite EU; reflexivity.
 Qed.
 
@@ -280,12 +296,14 @@ Lemma plain_built : forall s s1 u cls r l k pu, Built s ->
   create s (fun u w i => mkU u cls r l 1 0%Z "" k pu false true false ChkValid w i None 0) false = (s1, u) ->
   unit_ok (mkU 0 cls r l 1 0%Z "" k pu false true false ChkValid None 0%Z None 0) = true ->
   (forall v ch, In (O v ch) l -> vok s (O v ch)) ->
+  cls_lit cls = true -> String.eqb cls "Control" = false ->
   CtorOK s s1 (O u 0).
 Proof.
-  intros s s1 u cls r l k pu B Ec Hok Hl.
+  intros s s1 u cls r l k pu B Ec Hok Hl Hc1 Hc2.
   destruct (create_built _ _ _ _ _ B Ec) as (B1 & -> & E1 & U & HU & EU).
   { intros w i. cbv zeta. cbn [uid sidx wfa iswf ins].
     split; [reflexivity|]. split; [reflexivity|]. split; [reflexivity|]. split; [exact Hok|split; [reflexivity|exact Hl]]. }
+  { intros w i. split; [exact Hc1 | simpl; rewrite Hc2; discriminate]. }
   split; auto. split; auto. eapply vok_new; eauto; rewrite EU; reflexivity.
 Qed.
 
@@ -323,7 +341,7 @@ Proof.
   destruct (kis b 0) eqn:K2; [exact (py_binop_built s "add" a c s' v B Va Vc H)|].
   destruct (kis a 0) eqn:K3; [exact (py_binop_built s "add" b c s' v B Vb Vc H)|].
   destruct (create s _ false) as [s1 u] eqn:Ec. injection H as <- <-.
-  eapply plain_built; eauto.
+  eapply plain_built; eauto; try reflexivity.
   - unfold unit_ok, tracked. cbn [pure isugen multi iswf ukind ins opname implb andb negb].
     rewrite sort_by_length. cbn [List.length Nat.eqb]. rewrite forallb_sort; [reflexivity | apply forallb_nz3; auto].
   - intros v0 ch Hin. apply sort_by_In in Hin. destruct Hin as [E|[E|[E|[]]]]; rewrite <- E; auto.
@@ -338,7 +356,7 @@ Proof.
   destruct (kis c 0); [eapply sum3_built; [exact B| | | |exact H]; auto|].
   destruct (kis d 0); [eapply sum3_built; [exact B| | | |exact H]; auto|].
   destruct (create s _ false) as [s1 u] eqn:Ec. injection H as <- <-.
-  eapply plain_built; eauto.
+  eapply plain_built; eauto; try reflexivity.
   - unfold unit_ok, tracked. cbn [pure isugen multi iswf ukind ins opname implb andb negb].
     rewrite sort_by_length. reflexivity.
   - intros v0 ch Hin. apply sort_by_In in Hin. destruct Hin as [E|[E|[E|[E|[]]]]]; rewrite <- E; auto.
@@ -362,6 +380,12 @@ Proof. vm_compute. reflexivity. Qed.
 
 Definition ValsOK (s s' : st) (vals : list inp) : Prop := Built s' /\ ext s s' /\ forall v, In v vals -> vok s' v.
 
+(* catalogue classes: a known literal, never "Control", at least one output when the object can be an input *)
+Definition centry_ok3 (c : centry) : bool :=
+  cls_lit (c_cls c) && negb (String.eqb (c_cls c) "Control") && implb (c_hasval c) (Nat.leb 1 (c_nouts c)).
+Lemma catalogue_ok3 : forallb (fun p => centry_ok3 (snd p)) catalogue = true.
+Proof. vm_compute. reflexivity. Qed.
+
 Lemma ctor_cat_built : forall s name r args tg s' vals, Built s -> (forall v, In v args -> vok s v) ->
   ctor_cat s name r args tg = Ok (s', vals) -> ValsOK s s' vals.
 Proof.
@@ -379,34 +403,61 @@ Proof.
       destruct (nth_in_or_default n args (K 0)) as [Hn|Hn].
       + rewrite E in Hn. apply Hargs; auto.
       + rewrite Hn in E. discriminate. }
+  { pose proof catalogue_ok3 as Hc3. rewrite forallb_forall in Hc3.
+    specialize (Hc3 (name, c) (assoc_In _ _ _ Ea)). unfold centry_ok3 in Hc3. cbn [snd] in Hc3.
+    apply andb_true_iff in Hc3. destruct Hc3 as [Hc3 _]. apply andb_true_iff in Hc3. destruct Hc3 as [C1 C2].
+    intros w k. split; [exact C1 | cbn [cls]; apply negb_true_iff in C2; rewrite C2; discriminate]. }
   split; auto. split; auto. intros v Hv.
+  pose proof catalogue_ok3 as Hc3. rewrite forallb_forall in Hc3.
+  specialize (Hc3 (name, c) (assoc_In _ _ _ Ea)). unfold centry_ok3 in Hc3. cbn [snd] in Hc3.
+  apply andb_true_iff in Hc3. destruct Hc3 as [_ Hnout].
   pose proof catalogue_ok2 as Hcat2. rewrite forallb_forall in Hcat2.
   specialize (Hcat2 (name, c) (assoc_In _ _ _ Ea)). unfold centry_ok2 in Hcat2. cbn [snd] in Hcat2.
   destruct (c_hasval c); [|contradiction]. unfold chans in Hv. apply in_map_iff in Hv. destruct Hv as (ch & <- & Hch).
-  simpl. exists U. split; [|split].
+  cbn [implb] in Hnout. apply Nat.leb_le in Hnout.
+  simpl. exists U. split; [|split; [|split]].
   - unfold get_unit. rewrite HU, nth_error_app2, Nat.sub_diag; auto.
   - rewrite EU. cbn [multi]. intro M. rewrite M in Hch. apply in_seq in Hch. lia.
   - rewrite EU. cbn [isugen iswf]. intro Iu. rewrite Iu in Hcat2. exact Hcat2.
+  - rewrite EU. cbn [nouts]. apply in_seq in Hch. destruct (c_multi c); lia.
 Qed.
 
-Lemma Built_controls : forall s c, Built s -> Built (mkS (units s) (children s) (wfugens s) (rewriting s) (sets s) c).
-Proof. intros s c []. constructor; auto. Qed.
+Lemma Built_controls : forall s extra, Built s ->
+  Built (mkS (units s) (children s) (wfugens s) (rewriting s) (sets s) (controls s ++ extra)).
+Proof.
+  intros s extra []. constructor; auto.
+  intros u U G. destruct (B_loc0 u U G) as [A Bd]. split; auto. intro E. destruct (Bd E) as [B1 B2]. split; auto.
+  cbn [controls]. rewrite app_length. lia.
+Qed.
 
 Lemma ctor_ctl_built : forall s r vals s' ps, Built s -> ctor_ctl s r vals = (s', ps) -> ValsOK s s' ps.
 Proof.
   intros s r vals s' ps B H. unfold ctor_ctl in H. destruct vals as [|q t].
   - injection H as <- <-. split; auto. split; [apply ext_refl|]. intros v [].
-  - destruct (create s _ false) as [s1 u] eqn:Ec. injection H as <- <-.
-    destruct (create_built _ _ _ _ _ B Ec) as (B1 & -> & E1 & U & HU & EU).
-    { intros w k. cbv zeta. cbn [uid sidx wfa iswf ins].
+  - (* `create` does not read the control array: extend it first, then create the Control unit *)
+    set (vals := q :: t) in *. clearbody vals.
+    set (sc := mkS (units s) (children s) (wfugens s) (rewriting s) (sets s) (controls s ++ map Qred vals)).
+    pose proof (Built_controls s (map Qred vals) B) as Bc. fold sc in Bc.
+    set (mk := fun (u : nat) (w : option (list nat)) (k : Z) =>
+                 mkU u "Control" r [] (List.length vals) (Z.of_nat (List.length (controls s))) "" KCtl false true true false ChkValid w k None 0).
+    destruct (create sc mk false) as [s1c uc] eqn:Ecc.
+    assert (Hsame : (s', ps) = (s1c, chans uc (List.length vals))).
+    { rewrite <- H. unfold create in Ecc |- *. subst sc. cbn [units children wfugens rewriting sets controls] in Ecc |- *.
+      destruct (rewriting s); cbn [units children wfugens rewriting sets controls]; injection Ecc as <- <-; reflexivity. }
+    injection Hsame as -> ->.
+    destruct (create_built _ _ _ _ _ Bc Ecc) as (B1 & -> & E1 & U & HU & EU).
+    { intros w k. cbv zeta. unfold mk. cbn [uid sidx wfa iswf ins].
       split; [reflexivity|]. split; [reflexivity|]. split; [reflexivity|]. split; [reflexivity|split; [reflexivity|]].
       intros v ch []. }
-    split; [apply Built_controls; auto|]. split; [exact E1|].
+    { intros w k. unfold mk. split; [vm_compute; reflexivity|]. intros _. unfold ctl_bound. cbn [special nouts]. subst sc. cbn [controls].
+      rewrite app_length, map_length, Nat2Z.inj_add. split; [apply Nat2Z.is_nonneg | apply Z.le_refl]. }
+    split; [exact B1|]. split; [destruct E1 as [x Hx]; exists x; exact Hx|].
     intros v Hv. unfold chans in Hv. apply in_map_iff in Hv. destruct Hv as (ch & <- & Hch).
-    simpl. exists U. split; [|split].
+    simpl. exists U. split; [|split; [|split]].
     + unfold get_unit; simpl. rewrite HU, nth_error_app2, Nat.sub_diag; auto.
-    + rewrite EU. cbn [multi]. discriminate.
-    + rewrite EU. cbn [isugen]. discriminate.
+    + rewrite EU. unfold mk. cbn [multi]. discriminate.
+    + rewrite EU. unfold mk. cbn [isugen]. discriminate.
+    + rewrite EU. unfold mk. cbn [nouts]. apply in_seq in Hch. lia.
 Qed.
 
 Lemma ctor_out_built : forall s r bus xs tg s', Built s -> vok s bus -> (forall v, In v xs -> vok s v) ->
@@ -418,9 +469,10 @@ Proof.
             Built s1 /\ ext s0 s1).
   { intros s0 outs B0 Vb0 Vo. cbv zeta. destruct (create s0 _ false) as [s1 u] eqn:Ec. simpl.
     destruct (create_built _ _ _ _ _ B0 Ec) as (B1 & _ & E1 & _); auto.
-    intros w k. cbv zeta. cbn [uid sidx wfa iswf ins].
-    split; [reflexivity|]. split; [reflexivity|]. split; [reflexivity|]. split; [reflexivity|split; [reflexivity|]].
-    intros v ch [E|Hin]; [rewrite <- E; auto | apply Vo; auto]. }
+    - intros w k. cbv zeta. cbn [uid sidx wfa iswf ins].
+      split; [reflexivity|]. split; [reflexivity|]. split; [reflexivity|]. split; [reflexivity|split; [reflexivity|]].
+      intros v ch [E|Hin]; [rewrite <- E; auto | apply Vo; auto].
+    - intros w k. split; [vm_compute; reflexivity | cbn [cls]; intro E; vm_compute in E; discriminate E]. }
   destruct r; try discriminate.
   - injection H as <-. apply Hout; auto.
   - destruct (create s _ false) as [s1 d] eqn:Ec. injection H as <-.
@@ -428,10 +480,11 @@ Proof.
     { intros w k. cbv zeta. cbn [uid sidx wfa iswf ins].
       split; [reflexivity|]. split; [reflexivity|]. split; [reflexivity|]. split; [reflexivity|split; [reflexivity|]].
       intros v ch [E|[]]. discriminate. }
+    { intros w k. split; [vm_compute; reflexivity | cbn [cls]; intro E; vm_compute in E; discriminate E]. }
     destruct (Hout s1 (map (fun x => if kis x 0 then O (List.length (units s)) 0 else x) xs) B1) as [B2 E2].
     + eapply vok_ext; eauto.
     + intros v Hv. apply in_map_iff in Hv. destruct Hv as (x & <- & Hx). destruct (kis x 0).
-      * simpl. exists U. split; [unfold get_unit; rewrite HU, nth_error_app2, Nat.sub_diag; auto|]. rewrite EU. cbn [multi isugen]. split; discriminate.
+      * simpl. exists U. split; [unfold get_unit; rewrite HU, nth_error_app2, Nat.sub_diag; auto|]. rewrite EU. cbn [multi isugen nouts]. split; [discriminate | split; [discriminate | lia]].
       * eapply vok_ext; eauto.
     + split; auto. eapply ext_trans; eauto.
 Qed.
